@@ -45,6 +45,22 @@ func repCases() []repCase {
 		}
 	}
 	add("PRelu", nil, 1, "", f(1, 2, 3), f(2, 3))
+	// second operands that already have the result shape: broadcasting hands the operand itself to the kernel
+	add("PRelu", nil, 1, "slope-same-shape", f(1, 2, 3), f(2, 2, 3))
+	for _, op := range []string{"Add", "Sub", "Mul", "Div", "Greater", "Equal"} {
+		add(op, nil, 1, "same-shape", f(1, 2, 3), f(2, 2, 3))
+	}
+	add("And", nil, 1, "same-shape", ref.Distinct(ref.Bool, []int{2, 3}), ref.Distinct(ref.Bool, []int{2, 3}))
+	add("Scaler", []hx.Attr{hx.AFloats("offset", 0.5, -1, 2), hx.AFloats("scale", 2, 0.5, -1)}, 1, "rank-1-input", f(1, 3))
+	add("Scaler", []hx.Attr{hx.AFloats("offset", 0.5), hx.AFloats("scale", 2)}, 1, "scalar-attrs", f(1, 2, 3))
+	add("LinearRegressor", []hx.Attr{hx.AFloats("coefficients", 0.5, -1, 2, 0.25, 1, -0.5), hx.AInt("targets", 2), hx.AFloats("intercepts", 0.5, -0.25)}, 1, "single-row", f(1, 1, 3))
+	add("Gemm", []hx.Attr{hx.AFloat("beta", 0.5)}, 1, "C-full-shape", f(1, 2, 3), f(2, 3, 2), f(3, 2, 2))
+	add("Expand", nil, 1, "same-shape", f(1, 2, 3), ref.I64Vec(2, 3))
+	add("Reshape", nil, 1, "same-shape", f(1, 2, 3), ref.I64Vec(2, 3))
+	add("Slice", nil, 1, "whole", f(1, 3, 4), ref.I64Vec(0), ref.I64Vec(3), ref.I64Vec(0), ref.I64Vec(1))
+	add("Transpose", []hx.Attr{hx.AInts("perm", 0, 1)}, 1, "identity-perm", f(1, 2, 3))
+	add("Squeeze", nil, 1, "nothing-to-squeeze", f(1, 2, 3), nil)
+	add("Cast", []hx.Attr{hx.AInt("to", 1)}, 1, "same-type", f(1, 2, 3))
 	add("MatMul", nil, 1, "batched", f(1, 2, 2, 3), f(2, 3, 2))
 	add("MatMul", nil, 1, "vector-B", f(1, 2, 3), f(2, 3))
 	add("Gemm", []hx.Attr{hx.AFloat("alpha", 0.5), hx.AFloat("beta", 2), hx.AInt("transB", 1)}, 1, "", f(1, 2, 3), f(2, 2, 3), f(3, 2))
